@@ -549,7 +549,10 @@ where
     // stationarity pi P = pi
     for y in 0..k {
         let s: f64 = (0..k).map(|x| pi[x] * p[x][y]).sum();
-        if pi[y] > 0.0 && (s - pi[y]).abs() > (tol * 10.0 + 4.0 * k as f64 / F::n_u() as f64) * pi[y].max(1e-12) + 1e-300 {
+        // resolution of the extracted acceptance probabilities: 2^-53 / 2^-24 ABSOLUTE per pair, so
+        // the inflow into a low-probability state carries an absolute, not a relative, uncertainty
+        let inflow_res: f64 = (0..k).map(|x| pi[x] * qe[x][y]).sum::<f64>() * 4.0 / F::n_u() as f64;
+        if pi[y] > 0.0 && (s - pi[y]).abs() > tol * 10.0 * pi[y] + inflow_res + pi[y] * qe[y].iter().sum::<f64>() * 4.0 / F::n_u() as f64 + 1e-300 {
             o.violate("not_stationary", "MH::step:not-stationary", format!("{}: (pi P)({y}) = {s:e} != pi({y}) = {:e}", F::NAME, pi[y]));
         }
     }
